@@ -54,6 +54,15 @@ def deep_equal(seq1: Iterable[Any],
             return False
         return all(etree_deep_equal(c1, c2, True) for c1, c2 in zip(e1, e2))
 
+    def as_double(value: Any) -> Any:
+        # eq promotes an xs:integer to xs:double before comparing it with an xs:double
+        if not isinstance(value, int):
+            return value
+        try:
+            return float(value)
+        except OverflowError:
+            return math.inf if value > 0 else -math.inf
+
     def as_sequence(value: Any) -> Any:
         return value if isinstance(value, list) else [value]
 
@@ -162,7 +171,7 @@ def deep_equal(seq1: Iterable[Any],
                                 return False
                         elif not isinstance(value2, (value1.__class__, int)):
                             return False
-                        elif value1 != value2:
+                        elif value1 != as_double(value2):
                             return False
 
                     elif isinstance(value2, float):
@@ -176,7 +185,7 @@ def deep_equal(seq1: Iterable[Any],
                                 return False
                         elif not isinstance(value1, (value2.__class__, int)):
                             return False
-                        elif value1 != value2:
+                        elif as_double(value1) != value2:
                             return False
                     elif value1 != value2:
                         return False
